@@ -8,6 +8,7 @@ Require Import Cherab.Model.C17_Voxels.
 Require Import Cherab.Model.C17_Check.
 Require Import Cherab.Proofs.C17_Polygon Cherab.Proofs.C17_Voxel Cherab.Proofs.C17_Select Cherab.Proofs.C17_Emissivity.
 Require Import Cherab.Proofs.C17_Discrete Cherab.Proofs.C17_Check.
+Require Import Cherab.Proofs.C17_Rect Cherab.Proofs.C17_Convex Cherab.Proofs.C17_Uniform.
 From Coq Require Import Qabs.
 Open Scope Q_scope.
 
@@ -150,8 +151,11 @@ Print Assumptions C17_sample_point_in_triangle.
    the exact area-mean; for equal means it is that constant.  The step "u uniform => P(j) = area_j / area" is
    no longer a hypothesis: C17_selection_probability_on_uniform_grid and C17_expectation_on_uniform_grid prove it
    for the discrete variate uniform() really is (N-point grid, N = 2^53) with the explicit error 1/N.
-   Still missing: that point_triangle is uniform on the triangle (the sqrt transform) and the additivity of the
-   mean of a general integrable f over the triangles; neither is formalised. *)
+   The hypothesis "all triangles clockwise" is discharged for convex cells by C17_convex_ear_clipping_clockwise, and
+   the uniformity of point_triangle is proved on the grid for the generating family of corner regions
+   (C17_point_triangle_uniform_on_grid, error 3/N).  Still missing: the extension from that family of regions to
+   arbitrary measurable subsets, and the additivity of the mean of a general integrable f over the triangles
+   (no measure theory in this development). *)
 Theorem C17_emissivity_unbiased_partial :
   (forall l tris, clip_check (seq 0 (length l)) tris = true -> (forall t, In t tris -> tri2_of l t <= 0) ->
      Qsum (map (tri_area_of l) tris) == area l) /\
@@ -255,6 +259,64 @@ Theorem C17_rectangle_helper_accepts_trapezoid :
   (forall r0 r1 z0 z1, has_rectangular_cross_section (rectangle r0 r1 z0 z1) = true).
 Proof. split; [exact rectangle_helper_accepts_trapezoid | exact rectangle_helper_true_rectangles]. Qed.
 Print Assumptions C17_rectangle_helper_accepts_trapezoid.
+
+(* ---- second deepening round ---------------------------------------------------------------------------------------- *)
+
+(* convex cells: every triangle of every ear clipping of a convex clockwise vertex list (any number of vertices, any
+   choice of ears) is clockwise or degenerate; hence with no further hypothesis the triangle areas add up to the
+   reported area and the expectation for a linear emissivity is its value at the centroid.  Triangles and convex
+   quadrilaterals are instances. *)
+Theorem C17_convex_ear_clipping_clockwise :
+  (forall l tris, convex_cw l -> clip_check (seq 0 (length l)) tris = true -> forall t, In t tris -> tri2_of l t <= 0) /\
+  (forall l tris c0 c1 c2, convex_cw l -> clip_check (seq 0 (length l)) tris = true ->
+     Qsum (map (tri_area_of l) tris) == area l /\
+     (~ shoelace2 l == 0 -> exists c, centroid l = Some c /\
+        expected_estimate (map (tri_area_of l) tris) (map (fun t => linf c0 c1 c2 (tri_centroid_of l t)) tris)
+        == linf c0 c1 c2 c)) /\
+  (forall a b c, tri2 a b c <= 0 -> convex_cw [a; b; c]) /\
+  (forall a b c d, tri2 a b c <= 0 -> tri2 a b d <= 0 -> tri2 a c d <= 0 -> tri2 b c d <= 0 -> convex_cw [a; b; c; d]).
+Proof.
+  split; [exact convex_ear_clipping_clockwise | split; [exact convex_unbiased | split;
+    [exact convex_cw_triangle | exact convex_cw_quadrilateral]]].
+Qed.
+Print Assumptions C17_convex_ear_clipping_clockwise.
+Example C17_convex_nonvacuous :
+  convex_cw [(1, 1); (2, 1); (2, 0); (1, 0)] /\ clip_check (seq 0 4) [(3, 0, 1); (1, 2, 3)]%nat = true.
+Proof. split; [apply convex_cw_quadrilateral; vm_compute; congruence | vm_compute; reflexivity]. Qed.
+
+(* point_triangle on the grid: for every function sqrt with (sqrt u <= t <-> u <= t^2) at the grid values u = m/N
+   and the bound t in question (satisfiable: sqrt4_spec below; a correctly rounded sqrt has it up to rounding of t^2)
+   and two successive grid variates (m1/N, m2/N): the sample point lies in the corner region R(t, s) (barycentric alpha >= 1 - t,
+   beta <= s (1 - alpha)) exactly when temp <= t and u2 <= s; R(t, s) is a triangle of area s t^2 times the
+   triangle's; and the fraction of the N^2 grid pairs landing in it exceeds s t^2 by at most 3/N *)
+Theorem C17_point_triangle_uniform_on_grid :
+  (forall t s a b c, let '(p, q, r) := corner_region t s a b c in tri2 p q r == s * t * t * tri2 a b c) /\
+  (forall t s temp u2, 0 < temp ->
+     let '(al, be, ga) := bary temp u2 in (1 - t <= al /\ be <= s * (1 - al)) <-> (temp <= t /\ u2 <= s)) /\
+  (forall sqrt N t s, sqrt_spec_at sqrt N t -> (0 < N)%nat -> 0 <= t -> t < 1 -> 0 <= s -> s < 1 ->
+     let Nq := inject_Z (Z.of_nat N) in
+     0 <= inject_Z (Z.of_nat (corner_hits sqrt N t s)) / (Nq * Nq) - s * t * t <= 3 / Nq).
+Proof. split; [exact corner_region_area | split; [exact sample_in_corner_region | exact corner_hits_close]]. Qed.
+Print Assumptions C17_point_triangle_uniform_on_grid.
+Example C17_point_triangle_nonvacuous : sqrt_spec_at sqrt4 4 (1 # 2) /\ corner_hits sqrt4 4 (1 # 2) (1 # 2) = 6%nat.
+Proof. exact sqrt4_spec. Qed.
+
+(* the exact set the constructor's rectangle test accepts: four vertices, equal diagonals, stored edge 1-2 parallel to
+   an axis -- which contains every isosceles trapezoid listed from a base (area (w - d) h, bounding box w h) and,
+   among parallelograms, exactly the axis-aligned rectangles *)
+Theorem C17_rectangle_helper_exact_set :
+  (forall l, has_rectangular_cross_section l = true <->
+     exists v1 v2 v3 v4, l = [v1; v2; v3; v4] /\ dist2 v1 v3 == dist2 v2 v4 /\
+                         (px v2 == px v1 \/ py v2 == py v1)) /\
+  (forall w d h, has_rectangular_cross_section (trapezoid w d h) = true /\
+                 shoelace2 (trapezoid w d h) == - (2 * ((w - d) * h))) /\
+  (forall v1 v2 v3 v4, px v1 + px v3 == px v2 + px v4 -> py v1 + py v3 == py v2 + py v4 ->
+     ~ (px v1 == px v2 /\ py v1 == py v2) ->
+     (has_rectangular_cross_section [v1; v2; v3; v4] = true <->
+      (py v2 == py v1 /\ px v3 == px v2 /\ px v4 == px v1 /\ py v4 == py v3) \/
+      (px v2 == px v1 /\ py v3 == py v2 /\ py v4 == py v1 /\ px v4 == px v3))).
+Proof. split; [exact helper_accepts_iff | split; [exact helper_accepts_every_trapezoid | exact helper_on_parallelograms]]. Qed.
+Print Assumptions C17_rectangle_helper_exact_set.
 
 (* non-vacuity: a concave pentagon (given anticlockwise), its stored form, raysect's triangulation *)
 Definition witness : list pt := [(1, 0); (2, 0); (2, 1); (3 # 2, 1 # 2); (1, 1)].
